@@ -112,7 +112,8 @@ class GenotypeBackedSource(RandomSource):
         return self.decider.random_int(min, max)
 
     def random_float(self, min: float, max: float) -> float:
-        v = self.decider.read(float)
+        # (a gene rewritten by mutate() may be as large as sys.maxsize: reduce it to the range genes are created in)
+        v = self.decider.read(float) % (MAX_GENE_VALUE + 1)
         return (v / MAX_GENE_VALUE) * (max - min) + min
 
 
